@@ -2,6 +2,7 @@ package main
 
 import (
 	"fmt"
+	"runtime"
 )
 
 // Yield sites. The first block is inside rux (verif-tagged hooks), the second in the harness.
@@ -112,6 +113,16 @@ func (s *Sched) Run(enabled []string, bodies []func()) bool {
 		t := s.pick()
 		if t < 0 {
 			break
+		}
+		if raceEnabled && t != s.last {
+			// Empty every sync.Pool (fmt, regexp, ...) before a different task runs:
+			// in race builds sync.Pool adds a happens-before edge from Put to the Get
+			// that returns the same object, and which goroutine gets whose object is
+			// decided by P affinity and a random drop. Two collections clear primary and
+			// victim caches, so no object travels between tasks through a library pool
+			// and the detector's verdict depends on the schedule only.
+			runtime.GC()
+			runtime.GC()
 		}
 		kind, task, site := schedResume(t)
 		if task != t {
